@@ -7,8 +7,9 @@ def funcs : List (String × String) := [
   ("framework/module/msgmetadata.go:type ConnState", "07a13d2975e5d41f"),
   ("framework/module/msgmetadata.go:type MsgMetadata", "35edae60b069bca5"),
   ("internal/dsn/dsn.go:GenerateDSN", "cafaf64ea3d645c5"),
-  ("internal/dsn/dsn.go:RecipientInfo.WriteTo", "d9fd7d637aa8aaeb"),
+  ("internal/dsn/dsn.go:RecipientInfo.WriteTo", "b72ba0c09759afa4"),
   ("internal/dsn/dsn.go:ReportingMTAInfo.WriteTo", "77fbdf28a15ed64c"),
+  ("internal/dsn/dsn.go:fieldText", "beeceb906ec22a29"),
   ("internal/dsn/dsn.go:type Action", "15ada61402c8abb1"),
   ("internal/dsn/dsn.go:type Envelope", "f0614c26e1fe659a"),
   ("internal/dsn/dsn.go:type RecipientInfo", "0e279e2fb0ba3aba"),
@@ -24,7 +25,7 @@ def funcs : List (String × String) := [
   ("internal/target/queue/queue.go:Queue.readDiskQueue", "d542914f9b1ab176"),
   ("internal/target/queue/queue.go:Queue.readMessageMeta", "02d7c83723fce1d9"),
   ("internal/target/queue/queue.go:Queue.storeNewMessage", "b3c9b8f26b968111"),
-  ("internal/target/queue/queue.go:Queue.tryDelivery", "91d36a51cc7d0be5"),
+  ("internal/target/queue/queue.go:Queue.tryDelivery", "6590e3a3ec4082a2"),
   ("internal/target/queue/queue.go:Queue.updateMetadataOnDisk", "53af3a3781a30de7"),
   ("internal/target/queue/queue.go:queueDelivery.AddRcpt", "1c2d0bd0d73f0bb3"),
   ("internal/target/queue/queue.go:queueDelivery.Body", "606384d3a1d9a91b"),
